@@ -139,6 +139,9 @@ func genC14(r *Rng, tier string) *Scenario {
 	default:
 		sc.Family = "tree"
 		o := TreeOpts{ObjBias: 50, Debug: r.Chance(50), ObjFail: true, ArgClash: r.Chance(30)}
+		if r.Chance(2) {
+			o.Pages = 40 // more files than any worker pool has workers
+		}
 		if r.Chance(30) {
 			o.FailBias = 40
 		}
